@@ -55,3 +55,15 @@ Proof.
   - exact (perl_own_errors re_w re_d s).
   - exact (perl_linear re_w re_d H1 s).
 Qed.
+
+(* ---------------------------------------------------------------- python-brace markup inclusion on the generated tables *)
+From I18n Require Import Spec.CPyFormat Proofs.FmtPyBraceMarkup.
+
+Lemma gen_ucd_chars : ucd_chars gen_ucd.
+Proof.
+  constructor; cbn [u_d u_w gen_ucd]; intros c H; unfold plain; repeat split; intros ->; vm_compute in H; discriminate.
+Qed.
+
+Lemma gen_accept_implies_markup : forall s sg,
+  pybrace_parse_gen s = Ok sg -> nested_guard gen_ucd (S (length s)) s = true -> cpy_markup_ok s = true.
+Proof. intros s sg. unfold pybrace_parse_gen. apply accept_implies_markup. exact gen_ucd_chars. Qed.
